@@ -74,12 +74,12 @@ def rand_key(rng, used, kinds=('s', 's', 's', 'i'), pool_s=STR_KEYS, pool_i=INT_
 
 
 def rand_node(rng, depth, *, kinds=('s', 's', 's', 'i'), width=4, hostile=True, marker=None, p_leaf=0.45,
-              pool_s=STR_KEYS, allow_empty=True, seq_of_scalars_only=False, top=False):
+              pool_s=STR_KEYS, allow_empty=True, seq_of_scalars_only=False, top=False, no_seq=False):
     """random tag-free abstract node"""
     r = rng.random()
     if not top and (depth <= 0 or r < p_leaf):
         return scalar_node(rng, rand_scalar(rng, hostile, marker))
-    if top or r < p_leaf + 0.33:
+    if top or r < p_leaf + 0.33 or (no_seq and r < 0.8):
         n = rng.randrange(0 if allow_empty and not top else 1, width + 1) if rng.random() < 0.9 else 0
         if top and n == 0 and rng.random() < 0.9:
             n = 1
@@ -91,8 +91,10 @@ def rand_node(rng, depth, *, kinds=('s', 's', 's', 'i'), width=4, hostile=True, 
             used.append(k)
             items.append([k, rand_node(rng, depth - 1, kinds=kinds, width=width, hostile=hostile, marker=marker,
                                        p_leaf=p_leaf, pool_s=pool_s, allow_empty=allow_empty,
-                                       seq_of_scalars_only=seq_of_scalars_only)])
+                                       seq_of_scalars_only=seq_of_scalars_only, no_seq=no_seq)])
         return M(items)
+    if no_seq:
+        return scalar_node(rng, rand_scalar(rng, hostile, marker))
     n = rng.randrange(0 if allow_empty else 1, width + 1)
     if seq_of_scalars_only:
         return L([scalar_node(rng, rand_scalar(rng, hostile, marker)) for _ in range(n)])
@@ -199,7 +201,7 @@ def place_flags(rng, doc, p=0.3, vocab=('prio', 'del', 'new', 'unsafe', 'md'), r
             elif f == 'del':
                 n['del'] = rng.choice([True, False])
             elif f == 'new':
-                n['new'] = True if not notnew else rng.choice([True, False])
+                n['new'] = True if not notnew else rng.choice([True, True, False])
             elif f == 'unsafe':
                 n['unsafe'] = True
             elif f == 'md':
@@ -224,3 +226,90 @@ def md_needed(n):
     from .emit import md_dict
     d = md_dict(n)
     return bool(n.get('md')) or len(d) > 1
+
+
+# ------------------------------------------------------------------ full merge vocabulary
+import re as _re
+_SIMPLE = _re.compile(r'^[A-Za-z_][A-Za-z0-9_]*$')
+
+
+def path_str(path):
+    """NodePath text of a tuple path, or None if a component cannot be written"""
+    out = ''
+    for c in path:
+        if isinstance(c, bool) or not isinstance(c, (int, str)):
+            return None
+        if isinstance(c, int):
+            if c < 0:
+                return None
+            out += f'[{c}]'
+        else:
+            if not _SIMPLE.match(c):
+                return None
+            out += ('.' if out else '') + c
+    return out
+
+
+def doc_paths(doc, containers=True):
+    from .emit import walk
+    return [p for p, n in walk(doc) if p and (containers or n['t'] == 'sc')]
+
+
+def add_specials(rng, doc, earlier, p=0.25, kinds=('clear', 'vdel', 'append', 'extend', 'prev', 'required')):
+    """sprinkle structural nodes over the map values of `doc` (a later stage);
+    `earlier` = documents before it, whose paths are used as targets"""
+    from .emit import SP, S, L
+    import copy
+    doc = copy.deepcopy(doc)
+    old_paths = [p for d in earlier for p in doc_paths(d)]
+    kinds_at = {}
+    for d in earlier:
+        for q, nd in all_nodes(d):
+            kinds_at[q] = nd['t']
+    for mp, m in [(q, n) for q, n in all_nodes(doc) if n['t'] == 'map']:
+        for it in m['items']:
+            if rng.random() >= p:
+                continue
+            k = rng.choice(kinds)
+            here = kinds_at.get(mp + (it[0],))
+            sloppy = rng.random() < 0.15        # sometimes aim at something unsuitable on purpose
+            if k == 'clear':
+                if here in ('map', 'seq') or sloppy:
+                    it[1] = SP('clear')
+            elif k == 'vdel':
+                it[1] = S(None, vdel=True)
+            elif k == 'required':
+                it[1] = SP('required')
+            elif k in ('append', 'extend'):
+                if here == 'seq' or k == 'extend' or sloppy:
+                    it[1] = SP(k, args=L([scalar_node(rng, rand_scalar(rng, False)) for _ in range(rng.randrange(0, 3))]))
+            elif k == 'prev':
+                cands = [path_str(q) for q in old_paths]
+                cands = [c for c in cands if c]
+                if cands:
+                    it[1] = SP('prev', path=rng.choice(cands))
+    # also graft some special nodes onto keys that exist in earlier documents (so that they have something to act on)
+    if earlier and rng.random() < 0.6 and doc['t'] == 'map':
+        tops = [p for p in old_paths if len(p) == 1 and p[0] not in [k for k, _ in doc['items']]]
+        if tops:
+            k = rng.choice(tops)[0]
+            kind = rng.choice(kinds)
+            node = {'clear': SP('clear'), 'vdel': S(None, vdel=True), 'required': SP('required'),
+                    'append': SP('append', args=L([S(101), S('ap')])), 'extend': SP('extend', args=L([S(102)])),
+                    'prev': None}[kind]
+            if node is not None:
+                doc['items'].append([k, node])
+    return doc
+
+
+def rand_merge_sequence(rng, n_docs, depth=3, flags_p=0.25, specials_p=0.2, vocab=('prio', 'del', 'new', 'md'),
+                        special_kinds=('clear', 'vdel', 'append', 'extend', 'prev'), notnew=True, pool_s=None, **kw):
+    pool = pool_s or ['a', 'b', 'c', 'd', '_u', 'k1']
+    docs = rand_sequence(rng, n_docs, depth, pool_s=pool, **kw)
+    out = []
+    for i, d in enumerate(docs):
+        d = place_flags(rng, d, p=flags_p, vocab=vocab, notnew=notnew and i > 0)
+        if i > 0 and specials_p > 0:
+            d = add_specials(rng, d, docs[:i], p=specials_p, kinds=special_kinds)
+        out.append(d)
+    return out
